@@ -1,0 +1,239 @@
+// Verification hooks for cadence-macros. This module is only compiled when the
+// crate is built with `--cfg cadence_verif` and is not part of the public API.
+//
+// It provides pass-through replacements for `std::sync::atomic::AtomicUsize`
+// and `std::cell::UnsafeCell` that behave exactly like the std types but report
+// every access to an installable tracer: before the access (a point at which a
+// test harness may suspend the calling thread to control the interleaving) and
+// after it (with the orderings that were actually passed and what the access
+// observed). With no tracer installed nothing is reported.
+
+use std::fmt;
+use std::sync::atomic::Ordering;
+use std::sync::{Arc, RwLock};
+
+/// What kind of access is being made.
+#[derive(Debug, Clone, Copy, PartialEq, Eq)]
+pub enum AccessKind {
+    /// Atomic load with the given ordering.
+    Load(Ordering),
+    /// Atomic store of a value with the given ordering.
+    Store(usize, Ordering),
+    /// Atomic read-modify-write that always writes (swap, fetch_*).
+    Rmw(&'static str, usize, Ordering),
+    /// Atomic compare-and-exchange: expected, new, success and failure orderings.
+    CompareExchange(usize, usize, Ordering, Ordering),
+    /// `UnsafeCell::get` / `get_mut` / `into_inner`: a raw pointer to the contents was handed out.
+    CellGet,
+}
+
+/// What the access observed, reported after it has been made.
+#[derive(Debug, Clone, Copy, PartialEq, Eq)]
+pub enum Outcome {
+    /// Value returned by a load.
+    Loaded(usize),
+    /// A store was performed.
+    Stored,
+    /// Previous value returned by an unconditional read-modify-write.
+    RmwPrevious(usize),
+    /// Result of a compare-and-exchange: `Ok(previous)` if it wrote, `Err(current)` if not.
+    CompareExchange(Result<usize, usize>),
+    /// The pointer to the contents of a cell was produced.
+    Cell,
+}
+
+/// One access to a traced location.
+#[derive(Debug, Clone, Copy, PartialEq, Eq)]
+pub struct Access {
+    /// Address of the traced object (stable while it is not moved).
+    pub location: usize,
+    pub kind: AccessKind,
+}
+
+/// Receiver of access reports.
+pub trait Tracer: Send + Sync {
+    /// Called on the accessing thread immediately before the access is made.
+    fn before(&self, access: &Access);
+    /// Called on the accessing thread immediately after the access was made.
+    fn after(&self, access: &Access, outcome: &Outcome);
+}
+
+static TRACER: RwLock<Option<Arc<dyn Tracer>>> = RwLock::new(None);
+
+/// Install (or remove, with `None`) the tracer that receives access reports.
+pub fn set_tracer(tracer: Option<Arc<dyn Tracer>>) {
+    let mut guard = TRACER.write().unwrap_or_else(|e| e.into_inner());
+    *guard = tracer;
+}
+
+fn tracer() -> Option<Arc<dyn Tracer>> {
+    let guard = TRACER.read().unwrap_or_else(|e| e.into_inner());
+    guard.clone()
+}
+
+fn traced<R>(access: Access, op: impl FnOnce() -> R, outcome: impl FnOnce(&R) -> Outcome) -> R {
+    match tracer() {
+        None => op(),
+        Some(t) => {
+            t.before(&access);
+            let res = op();
+            t.after(&access, &outcome(&res));
+            res
+        }
+    }
+}
+
+/// Pass-through replacement for `std::sync::atomic::AtomicUsize`.
+#[derive(Default)]
+pub struct AtomicUsize(std::sync::atomic::AtomicUsize);
+
+impl fmt::Debug for AtomicUsize {
+    fn fmt(&self, f: &mut fmt::Formatter<'_>) -> fmt::Result {
+        fmt::Debug::fmt(&self.0, f)
+    }
+}
+
+impl From<usize> for AtomicUsize {
+    fn from(v: usize) -> Self {
+        AtomicUsize::new(v)
+    }
+}
+
+impl AtomicUsize {
+    pub const fn new(v: usize) -> Self {
+        AtomicUsize(std::sync::atomic::AtomicUsize::new(v))
+    }
+
+    fn access(&self, kind: AccessKind) -> Access {
+        Access {
+            location: &self.0 as *const _ as usize,
+            kind,
+        }
+    }
+
+    pub fn get_mut(&mut self) -> &mut usize {
+        self.0.get_mut()
+    }
+
+    pub fn into_inner(self) -> usize {
+        self.0.into_inner()
+    }
+
+    pub fn load(&self, order: Ordering) -> usize {
+        traced(
+            self.access(AccessKind::Load(order)),
+            || self.0.load(order),
+            |r| Outcome::Loaded(*r),
+        )
+    }
+
+    pub fn store(&self, val: usize, order: Ordering) {
+        traced(
+            self.access(AccessKind::Store(val, order)),
+            || self.0.store(val, order),
+            |_| Outcome::Stored,
+        )
+    }
+
+    pub fn compare_exchange(
+        &self,
+        current: usize,
+        new: usize,
+        success: Ordering,
+        failure: Ordering,
+    ) -> Result<usize, usize> {
+        traced(
+            self.access(AccessKind::CompareExchange(current, new, success, failure)),
+            || self.0.compare_exchange(current, new, success, failure),
+            |r| Outcome::CompareExchange(*r),
+        )
+    }
+
+    pub fn compare_exchange_weak(
+        &self,
+        current: usize,
+        new: usize,
+        success: Ordering,
+        failure: Ordering,
+    ) -> Result<usize, usize> {
+        traced(
+            self.access(AccessKind::CompareExchange(current, new, success, failure)),
+            || self.0.compare_exchange_weak(current, new, success, failure),
+            |r| Outcome::CompareExchange(*r),
+        )
+    }
+
+    pub fn fetch_update<F>(&self, set_order: Ordering, fetch_order: Ordering, mut f: F) -> Result<usize, usize>
+    where
+        F: FnMut(usize) -> Option<usize>,
+    {
+        let mut prev = self.load(fetch_order);
+        while let Some(next) = f(prev) {
+            match self.compare_exchange_weak(prev, next, set_order, fetch_order) {
+                x @ Ok(_) => return x,
+                Err(next_prev) => prev = next_prev,
+            }
+        }
+        Err(prev)
+    }
+}
+
+macro_rules! rmw {
+    ($($name:ident),*) => {
+        impl AtomicUsize {
+            $(
+                pub fn $name(&self, val: usize, order: Ordering) -> usize {
+                    traced(
+                        self.access(AccessKind::Rmw(stringify!($name), val, order)),
+                        || self.0.$name(val, order),
+                        |r| Outcome::RmwPrevious(*r),
+                    )
+                }
+            )*
+        }
+    };
+}
+
+rmw!(swap, fetch_add, fetch_sub, fetch_and, fetch_nand, fetch_or, fetch_xor, fetch_max, fetch_min);
+
+/// Pass-through replacement for `std::cell::UnsafeCell`.
+#[derive(Default)]
+#[repr(transparent)]
+pub struct UnsafeCell<T>(std::cell::UnsafeCell<T>);
+
+impl<T> fmt::Debug for UnsafeCell<T> {
+    fn fmt(&self, f: &mut fmt::Formatter<'_>) -> fmt::Result {
+        f.debug_struct("UnsafeCell").finish_non_exhaustive()
+    }
+}
+
+impl<T> From<T> for UnsafeCell<T> {
+    fn from(v: T) -> Self {
+        UnsafeCell::new(v)
+    }
+}
+
+impl<T> UnsafeCell<T> {
+    pub const fn new(v: T) -> Self {
+        UnsafeCell(std::cell::UnsafeCell::new(v))
+    }
+
+    fn access(&self) -> Access {
+        Access {
+            location: &self.0 as *const _ as usize,
+            kind: AccessKind::CellGet,
+        }
+    }
+
+    pub fn get(&self) -> *mut T {
+        traced(self.access(), || self.0.get(), |_| Outcome::Cell)
+    }
+
+    pub fn get_mut(&mut self) -> &mut T {
+        self.0.get_mut()
+    }
+
+    pub fn into_inner(self) -> T {
+        self.0.into_inner()
+    }
+}
